@@ -187,7 +187,7 @@ func init() {
 			c.usedExtern("strings.IndexFunc")
 			// the predicate is called on runes of s only; modelled as pure unless it is a closure with effects
 			if a[1].Fn != nil && a[1].Fn.Fn != nil {
-				mi := c.E.modInfo(a[1].Fn.Fn)
+				mi := c.E.modInfo(a[1].Fn.Fn).closed()
 				c.havocMod(mi.Exist, mi.Fresh, "strings.IndexFunc callback")
 			}
 			ix := c.freshConst("ixf", SInt)
@@ -283,7 +283,7 @@ func init() {
 		externModels[n] = func(c *FnCtx, f *ssa.Function, a []Val, rt types.Type, pos token.Pos) (Val, bool) {
 			c.usedExtern("slices.Index/IndexFunc")
 			if isFunc && a[1].Fn != nil && a[1].Fn.Fn != nil {
-				c.havocMod(c.E.modInfo(a[1].Fn.Fn).Exist, c.E.modInfo(a[1].Fn.Fn).Fresh, "slices.IndexFunc callback")
+				c.havocMod(c.E.modInfo(a[1].Fn.Fn).closed().Exist, c.E.modInfo(a[1].Fn.Fn).closed().Fresh, "slices.IndexFunc callback")
 				c.E.noteCallbackPanics(c, a[1].Fn.Fn)
 			} else if isFunc {
 				c.havocAll("slices.IndexFunc unknown callback")
@@ -297,7 +297,7 @@ func init() {
 		externModels[n] = func(c *FnCtx, f *ssa.Function, a []Val, rt types.Type, pos token.Pos) (Val, bool) {
 			c.usedExtern("slices.ContainsFunc")
 			if a[1].Fn != nil && a[1].Fn.Fn != nil {
-				c.havocMod(c.E.modInfo(a[1].Fn.Fn).Exist, c.E.modInfo(a[1].Fn.Fn).Fresh, "slices.ContainsFunc callback")
+				c.havocMod(c.E.modInfo(a[1].Fn.Fn).closed().Exist, c.E.modInfo(a[1].Fn.Fn).closed().Fresh, "slices.ContainsFunc callback")
 				c.E.noteCallbackPanics(c, a[1].Fn.Fn)
 			} else {
 				c.havocAll("slices.ContainsFunc unknown callback")
@@ -336,7 +336,7 @@ func init() {
 						o.Props = cl.Props
 					}
 				}
-				c.havocMod(c.E.modInfo(cb).Exist, c.E.modInfo(cb).Fresh, "sort callback")
+				c.havocMod(c.E.modInfo(cb).closed().Exist, c.E.modInfo(cb).closed().Fresh, "sort callback")
 				c.E.noteCallbackPanics(c, cb)
 			}
 			row := c.freshConst("sorted", Sort("(Array Int "+string(es)+")"))
